@@ -9,6 +9,9 @@ import random
 from .load import REPO
 
 XONSH_FORMS = [
+    "a?.b?\n", "range?.index??\n", "x = p and a && b\n", "x = a && b and q\n", "x = a || b or c\n", "open(pf'/tmp/{n}', 'rb')\n", "pf'/tmp/{n}' / 'data.txt'\n",
+    "x = pf'/a{b}'\nmode = 'w'\n", "$(echo a\nb)\n", "![git commit\n-m msg\n--amend]\n", "$(cp a@(x)b.c dest)\n", "$(tar czf @(name).tar.gz src)\n", "f!(f'{x},{y}', c)\n",
+    "with! x:\n    s = \'\'\'a\n    b\n    c\'\'\'\n    y = s\nafter = 1\n", "x = $(gcc --include=@(incs\n))\n", "$A, () = $(ls), []\n",
     "$HOME\n", "${'HO' + 'ME'}\n", "$(ls -l)\n", "$[ls -l]\n", "!(ls -l)\n", "![ls -l]\n", "`.*\\.py`\n", "g`*.py`\n",
     "p'/tmp'\n", "pr'/tmp'\n", "pf'/tmp/{x}'\n", "x?\n", "x??\n", "a && b\n", "a || b\n", "$X = 1\n", "${'Y'} = 2\n",
     "for $I in range(3): pass\n", "with open(f) as $F: pass\n", "[1 for $J in y]\n", "del $X\n",
@@ -46,6 +49,29 @@ PY_SNIPPETS = [
     "x[a:b:c] = 1\n", "x[()] = 1\n", "a.b = c\n", "(a, b) = c\n", "[a, b] = c\n", "*a, b = c\n", "a = yield b\n", "x @= y\n", "x //= y\n", "x **= y\n",
     "x >>= y\n", "x <<= y\n", "x &= y\n", "x |= y\n", "x ^= y\n", "x %= y\n", "x /= y\n", "x -= y\n", "x *= y\n",
 ]
+
+
+EXPRS = ["a", "a or b", "a and b", "not a", "a < b", "a == b != c", "a in b", "a not in b", "a is not b", "a | b", "a ^ b", "a & b", "a << b", "a + b", "a - b * c",
+         "a @ b", "-a", "~a", "+a", "a ** b", "-a ** -b", "await a", "a.b", "a[b]", "a[b:c, ::d]", "a(b)", "a(b, *c, d=e, **f)", "a if b else c", "lambda: a", "lambda x, *y, z=1: x",
+         "(yield)", "(yield a)", "(a := b)", "a, b", "*a, b", "(a, b)", "[a, b]", "[*a]", "{a: b}", "{**a}", "{a, b}", "[a for a in b]", "{a: b for a in c}", "(a for a in b if c)",
+         "'s'", "'s' 't'", "b'b'", "1", "1.5j", "...", "None", "True", "a if b else c if d else e", "lambda: (yield)", "not a in b", "a < b < c", "a or b and not c"]
+EXPR_CONTEXTS = ["@\n", "x = @\n", "x = y = @\n", "x: int = @\n", "x += @\n", "f(@)\n", "f(*@)\n", "f(**@)\n", "f(k=@)\n", "f(a, *@, b)\n", "t[@]\n", "t[*@]\n", "t[@:@]\n",
+                 "[@]\n", "[*@]\n", "(@,)\n", "{@}\n", "{@: 1}\n", "{1: @}\n", "{**@}\n", "[@ for i in j]\n", "[i for i in @]\n", "[i for i in j if @]\n", "{@: @ for i in j}\n",
+                 "if @: pass\n", "while @: pass\n", "for i in @: pass\n", "for i in *@, b: pass\n", "with @: pass\n", "with @ as w: pass\n", "assert @\n", "assert a, @\n", "return @\n",
+                 "raise @\n", "raise a from @\n", "del t[@]\n", "t[@] = 1\n", "class C(@): pass\n", "class C(*@): pass\n", "class C(m=@): pass\n", "def f(p=@): pass\n",
+                 "def f(*, p=@): pass\n", "def f() -> @: pass\n", "def f(p: @): pass\n", "@dec(@)\ndef f(): pass\n", "lambda p=@: 0\n", "x = @ if c else d\n", "x = c if @ else d\n",
+                 "x = c if d else @\n", "x = not @\n", "x = -@\n", "x = @ ** 2\n", "x = 2 ** @\n", "x = @.attr\n", "x = @[0]\n", "x = @()\n", "x = await @\n", "x = yield @\n",
+                 "x = (y := @)\n", "print(@, sep='')\n", "match @:\n    case 1: pass\n", "match x:\n    case 1 if @: pass\n", "x = @ or y\n", "x = y and @\n", "x = @ < y\n",
+                 "x = y + @\n", "x = @ | y\n", "type X = @\n", "global_ = [@, @]\n", "x = f'{@}'\n", "except_ = (@)\n", "try:\n    pass\nexcept @: pass\n", "async def f():\n    async for i in @: pass\n"]
+
+
+def expr_product():
+    """every expression kind in every expression position (valid and invalid combinations alike; CPython judges)"""
+    out = []
+    for c in EXPR_CONTEXTS:
+        for e in EXPRS:
+            out.append(c.replace("@", e))
+    return out
 
 
 def _read(path):
